@@ -700,7 +700,9 @@ fn setup_space_list_check(
                 );
 
                 let is_value = left_node.definition.is_value_like();
-                let is_group_value = left_node.definition.is_group_like() && last_left != current_group;
+                // a closed group or nested expression is a value, a side effect block is not
+                let is_group_value = (left_node.definition == Definition::Group || left_node.definition == Definition::NestedExpression)
+                    && last_left != current_group;
                 // an expression ending in a unary suffix is complete as well
                 let is_suffix_value = left_node.secondary_definition == SecondaryDefinition::UnarySuffix;
                 if is_value || is_group_value || is_suffix_value {
